@@ -312,6 +312,132 @@ theorem evicts_all_older (ret now now' : Nat) (hnow : now ≤ now') (T : Tables)
     intro q hq; rw [hp0] at hq; cases hq; omega)
   rw [this] at hres; cases hres
 
+/-! ### Eviction as snapshot + `CheckExpired` steps with publishes in between -/
+
+theorem cutoff_mono {a b : Nat} (ret : Nat) (h : a ≤ b) : cutoff a ret ≤ cutoff b ret := by
+  unfold cutoff; omega
+
+/-- One step of the interleaved system never loses a packet that is not older than the
+retention period at that moment: whatever step is taken — in particular a `CheckExpired`
+whose `(time, key)` was read from a snapshot taken *before* the key was re-published — the
+key still holds a packet at least as recent. -/
+theorem never_evicts_newer_step (ret : Nat) {s s' : EState} {l : ELabel}
+    (hs : estep ret s l = some s') (p : Packet) (hp : Holds s.tables p)
+    (hnew : ¬ p.ts < cutoff s.clock ret) : Holds s'.tables p := by
+  cases l with
+  | tick d => simp only [estep, Option.some.injEq] at hs; subst hs; exact hp
+  | snapshot cands => simp only [estep, Option.some.injEq] at hs; subst hs; exact hp
+  | publish x =>
+    simp only [estep, Option.some.injEq] at hs; subst hs
+    rcases holds_applyMsg (ret := ret) hp (.upsert x) with h | ⟨_, _, _, hm, _⟩
+    · exact h
+    · cases hm
+  | check =>
+    simp only [estep] at hs
+    cases hq : s.queue with
+    | nil => rw [hq] at hs; cases hs
+    | cons m q =>
+      obtain ⟨t, k⟩ := m
+      rw [hq] at hs; simp only [Option.some.injEq] at hs; subst hs
+      rcases holds_applyMsg (ret := ret) hp (.checkExpired s.clock t k) with h | ⟨now, _, _, hm, hlt⟩
+      · exact h
+      · cases hm; exact absurd hlt hnew
+
+theorem clock_mono_step (ret : Nat) {s s' : EState} {l : ELabel} (hs : estep ret s l = some s') :
+    s.clock ≤ s'.clock := by
+  cases l with
+  | tick d => simp only [estep, Option.some.injEq] at hs; subst hs; simp
+  | snapshot cands => simp only [estep, Option.some.injEq] at hs; subst hs; exact Nat.le_refl _
+  | publish x => simp only [estep, Option.some.injEq] at hs; subst hs; exact Nat.le_refl _
+  | check =>
+    simp only [estep] at hs
+    cases hq : s.queue with
+    | nil => rw [hq] at hs; cases hs
+    | cons m q =>
+      obtain ⟨t, k⟩ := m
+      rw [hq] at hs; simp only [Option.some.injEq] at hs; subst hs; exact Nat.le_refl _
+
+/-- Over every interleaving of clock ticks, eviction snapshots, `CheckExpired` handling and
+publishes (any number of each, in any order): a packet that is stored — or represented by a
+more recent one — at some point and is not older than the retention period at the end is
+still represented at the end.  In particular a key re-published between the snapshot and the
+handling of its `CheckExpired` keeps the fresh packet. -/
+theorem never_evicts_newer_interleaved (ret : Nat) (T : Tables) (clock : Nat) {s s' : EState}
+    (hsteps : LTS.Steps (esys ret T clock) s s') (p : Packet) (hp : Holds s.tables p)
+    (hnew : ¬ p.ts < cutoff s'.clock ret) : Holds s'.tables p := by
+  induction hsteps with
+  | refl => exact hp
+  | tail _ hstep ih =>
+    have hmono := clock_mono_step ret hstep
+    have hc := cutoff_mono ret hmono
+    exact never_evicts_newer_step ret hstep p (ih (by omega)) (by omega)
+
+/-- What is true of every reachable state of the interleaved system started from tables that
+satisfy the index invariant: the invariant, and every queued `CheckExpired` carries a `time`
+below the current cut-off (so `WellTimed` is a consequence of the monotonic clock, not an
+extra assumption). -/
+def EInv (ret : Nat) (s : EState) : Prop :=
+  Inv s.tables ∧ ∀ t k, (t, k) ∈ s.queue → t < cutoff s.clock ret
+
+theorem einv_step (ret : Nat) {s s' : EState} {l : ELabel} (h : EInv ret s)
+    (hs : estep ret s l = some s') : EInv ret s' := by
+  obtain ⟨hinv, hq⟩ := h
+  cases l with
+  | tick d =>
+    simp only [estep, Option.some.injEq] at hs; subst hs
+    refine ⟨hinv, fun t k hm => ?_⟩
+    have h1 := hq t k hm
+    have h2 := cutoff_mono ret (Nat.le_add_right s.clock d)
+    show t < cutoff (s.clock + d) ret
+    omega
+  | snapshot cands =>
+    simp only [estep, Option.some.injEq] at hs; subst hs
+    refine ⟨hinv, fun t k hm => ?_⟩
+    rcases List.mem_append.mp hm with hm | hm
+    · exact hq t k hm
+    · unfold scan at hm
+      rw [List.mem_filter] at hm
+      have h2 := hm.2
+      simp only [Bool.and_eq_true, decide_eq_true_eq] at h2
+      exact h2.2
+  | publish x =>
+    simp only [estep, Option.some.injEq] at hs; subst hs
+    exact ⟨inv_upsert hinv x, hq⟩
+  | check =>
+    simp only [estep] at hs
+    cases hqq : s.queue with
+    | nil => rw [hqq] at hs; cases hs
+    | cons m q =>
+      obtain ⟨t, k⟩ := m
+      rw [hqq] at hs; simp only [Option.some.injEq] at hs; subst hs
+      refine ⟨inv_checkExpired hinv k (hq t k (by rw [hqq]; simp)), fun t' k' hm => ?_⟩
+      exact hq t' k' (by rw [hqq]; exact List.mem_cons_of_mem _ hm)
+
+/-- Index consistency in every reachable state of the interleaved system. -/
+theorem evict_interleaved_index_consistent (ret : Nat) (T : Tables) (clock : Nat) (hT : Inv T)
+    {s : EState} (h : LTS.Reachable (esys ret T clock) s) : EInv ret s :=
+  LTS.invariant_of_inductive (esys ret T clock) (EInv ret)
+    ⟨hT, fun _ _ hm => by simp [esys] at hm⟩ (fun _ _ _ hi hs => einv_step ret hi hs) s h
+
+/-- The history of the seeded change: old packet stored and indexed, snapshot, fresh
+re-publish, then the `CheckExpired` for the old entry — the fresh packet stays and is indexed. -/
+theorem republish_between_snapshot_and_check (ret now : Nat) (T : Tables) (hT : Inv T)
+    (old fresh : Packet) (hk : fresh.key = old.key) (hold : T.packets old.key = some old)
+    (hexp : old.ts < cutoff now ret) (hfresh : ¬ fresh.ts < cutoff now ret) :
+    let T' := checkExpired ret now (upsert T fresh).1 old.ts old.key
+    T'.packets old.key = some fresh ∧ T'.index fresh.ts old.key = true := by
+  intro T'
+  have hmr : moreRecentThan old fresh = false := by
+    unfold moreRecentThan
+    have : ¬ old.ts = fresh.ts := by omega
+    simp only [this, if_false, decide_eq_false_iff_not]; omega
+  have hup : (upsert T fresh).1.packets old.key = some fresh := by
+    rw [upsert_def, hk, hold]; simp [hmr]
+  have hinv : Inv T' := inv_checkExpired (inv_upsert hT fresh) old.key hexp
+  have hkeep : T'.packets old.key = some fresh :=
+    never_evicts_newer ret now (upsert T fresh).1 old.ts old.key old.key fresh hup hfresh
+  exact ⟨hkeep, (hinv _ _ hkeep).2⟩
+
 /-! ### Read-back -/
 
 /-- A packet written by `serialize` (any 8-byte prefix) reads back byte for byte. -/
